@@ -64,6 +64,8 @@ Record config := mkCfg {
   c_on_hit_end : list nat;
   c_on_death : list nat;
   c_on_hp_change : list nat;
+  c_on_phase1 : list nat;            (* Modifier.Tick(active, ModifierPhase1): the content's OnPhase1 listener *)
+  c_on_phase2 : list nat;            (* Modifier.Tick(active, ModifierPhase2): the content's OnPhase2 listener *)
   c_cycle_limit : Z;
   c_insert_budget : Z }.             (* harness content stops inserting after this many *)
 
@@ -116,7 +118,7 @@ Record sim := mkSim {
   in_attack : option (Z * Z);                 (* key, attacker *)
   next_q : list (Z * list decision);
   ults_q : list (list ultreq);
-  lslots : list (list nat);                   (* listener slots: battle, action end, hit end, death, hp change *)
+  lslots : list (list nat);                   (* listener slots: battle, action end, hit end, death, hp change, phase 1 tick, phase 2 tick *)
   budget : Z;
   res : result;
   trace : list ev }.
@@ -274,9 +276,9 @@ Definition record_hit (s : sim) (def : Z) (total : float) : sim :=
   end.
 
 (* ---- listener slots ---- *)
-Inductive slot := LBattle | LActionEnd | LHitEnd | LDeath | LHP.
+Inductive slot := LBattle | LActionEnd | LHitEnd | LDeath | LHP | LPhase1 | LPhase2.
 Definition slot_ix (sl : slot) : nat :=
-  match sl with LBattle => 0 | LActionEnd => 1 | LHitEnd => 2 | LDeath => 3 | LHP => 4 end%nat.
+  match sl with LBattle => 0 | LActionEnd => 1 | LHitEnd => 2 | LDeath => 3 | LHP => 4 | LPhase1 => 5 | LPhase2 => 6 end%nat.
 Fixpoint set_nth_l (l : list (list nat)) (n : nat) (v : list nat) : list (list nat) :=
   match l, n with
   | [], _ => []
@@ -770,10 +772,15 @@ Section Scripts.
     let s' := emit (set_turn s t2) (reset_events outs2 ++ [VPhase2Start]) in
     match execute_queue fuel s' false with
     | Ok s6 =>
-        let s7 := emit s6 [VPhase2End] in
-        match death_check fuel s7 true with
+        (* Modifier.Tick(Active, ModifierPhase2): only when the battle did not end in the queue *)
+        match run_slot fuel s6 LPhase2 (active_id s6) (active_id s6) with
         | None => OutOfFuel
-        | Some s8 => exit_check (emit s8 [VTurnEnd (chars s8) (enemies s8)])
+        | Some s6' =>
+            let s7 := emit s6' [VPhase2End] in
+            match death_check fuel s7 true with
+            | None => OutOfFuel
+            | Some s8 => exit_check (emit s8 [VTurnEnd (chars s8) (enemies s8)])
+            end
         end
     | x => x
     end.
@@ -785,7 +792,10 @@ Section Scripts.
         if match get_unit (units s) id with Some _ => false | None => true end then Err s else
         let s1 := emit (set_active (set_turn s t') id) [VTurnStart id av tot (map (fun x => (fst (fst x), snd (fst x))) st)] in
         (* phase1 *)
-        let s2 := emit s1 [VPhase1Start] in
+        (* Modifier.Tick(Active, ModifierPhase1) right after Phase1Start, before the death check *)
+        match run_slot fuel (emit s1 [VPhase1Start]) LPhase1 id id with
+        | None => OutOfFuel
+        | Some s2 =>
         match death_check fuel s2 false with
         | None => OutOfFuel
         | Some s3 =>
@@ -807,6 +817,7 @@ Section Scripts.
                   end
               | x => x
               end
+        end
         end
     | _ => Err s
     end.
@@ -840,7 +851,8 @@ Section Scripts.
     let '(t1, outs) := Turn.step F (Turn.init F)
                          (@OAdd F (map (fun id => (id, Turn.lookup F spds id)) (cs ++ es))) in
     let s0 := mkSim us cs es 3 t1 [] 0 0 None (c_next cfg) (c_ults cfg)
-                    [c_on_battle_start cfg; c_on_action_end cfg; c_on_hit_end cfg; c_on_death cfg; c_on_hp_change cfg]
+                    [c_on_battle_start cfg; c_on_action_end cfg; c_on_hit_end cfg; c_on_death cfg; c_on_hp_change cfg;
+                     c_on_phase1 cfg; c_on_phase2 cfg]
                     (c_insert_budget cfg) (mkRes 0 0 [0%float] [0%float])
                     [VInitialize; VCharactersAdded cs; VEnemiesAdded es; VTurnTargetsAdded (map u_id (order t1))] in
     match run_slot fuel s0 LBattle 0 0 with
